@@ -154,6 +154,9 @@ const (
 )
 
 func DecodeMessage(bz []byte) (msgType byte, msg Message, err error) {
+	if len(bz) == 0 {
+		return 0, nil, fmt.Errorf("DecodeMessage: empty message")
+	}
 	msgType = bz[0]
 	n := new(int)
 	r := bytes.NewReader(bz)
